@@ -9,7 +9,7 @@
 //!                                        (scaffolding that stands in for the writer `add_version_with` was meant to be,
 //!                                        so that chains with several creators reach the readers and the vacuum)
 //!   x <xid>                              overwrite the header xmin
-//!   d <xid>                              delete
+//!   d <xid>                              delete (an existing delete mark is overwritten)
 //!   v <horizon>                          vaccum_with
 //!   p                                    reload the tuple from its padded (`full_data`) form, as the log stores it
 //!   l                                    decode the newest version
